@@ -184,7 +184,7 @@ func c03Classes(f fieldCase3, cl map[string]int64) (nontrivial bool) {
 func TestC03(t *testing.T) {
 	c := begin(t, "C03")
 	defer c.end()
-	c.rec.F.Rule = "layer1 (complete): 2 versions x 64 (CR,IR,AR) x 27 (MC,MI,MA) x 2 (MS) x 48 (MAV,MAC,MPR,MUI) x 100 (E,RL,RC) = 33,177,600 objects with every Modified metric defined and every base metric set to a *different* value, built by assigning exported fields; layer2: the version x base x environmental product (11,466,178,560 points; quick: 3,000,000 points chosen by a seeded pseudo-random bijection (Feistel network) of the index space, distinct by construction; thorough: complete), temporal metrics chosen by a hash of the index; layer3: rapid well-formed environmental vectors through Decode (random order, omission, explicit X); layer4: for every version x base combination, the vector whose eight Modified metrics are written out equal to the base metrics, and its variants with exactly one Modified metric changed or one requirement raised, through Decode (quick: a quarter of the variants). Non-trivial: layer1 all with modified impact > 0; layer2 at least one Modified metric X (falls back to the base value) and at least one defined; layer3 at least one environmental metric defined."
+	c.rec.F.Rule = "layer1 (complete): 2 versions x 64 (CR,IR,AR) x 27 (MC,MI,MA) x 2 (MS) x 48 (MAV,MAC,MPR,MUI) x 100 (E,RL,RC) = 33,177,600 objects with every Modified metric defined and every base metric set to a *different* value, built by assigning exported fields; layer2: the version x base x environmental product (11,466,178,560 points; quick: 16,000,000 points chosen by a seeded pseudo-random bijection (Feistel network) of the index space, distinct by construction; thorough: complete), temporal metrics chosen by a hash of the index; layer3: rapid well-formed environmental vectors through Decode (random order, omission, explicit X); layer4: for every version x base combination, the vector whose eight Modified metrics are written out equal to the base metrics, and its variants with exactly one Modified metric changed or one requirement raised, through Decode (quick: a quarter of the variants). Non-trivial: layer1 all with modified impact > 0; layer2 at least one Modified metric X (falls back to the base value) and at least one defined; layer3 at least one environmental metric defined."
 	c.rec.F.Assumptions = []string{"reference model: exact rational MISS with 0.915 cap, version-specific changed-scope polynomial, exact exploitability with PR weights by effective scope, double Roundup (harness/spec)", "objects built from the exported constructor plus exported-field assignment, as property C03 allows"}
 
 	// ---- layer 1 ---------------------------------------------------------------------
@@ -323,7 +323,7 @@ func TestC03(t *testing.T) {
 				c.rec.F.Exhaustive = append(c.rec.F.Exhaustive, "version x base x environmental (11,466,178,560 objects)")
 			}
 		} else {
-			total := uint64(3000000)
+			total := uint64(16000000)
 			key := mix(uint64(seed), 0xc03)
 			for k := uint64(shard); k < total; k += uint64(shards) {
 				n := permIndex(k, layer2Space, key)
@@ -383,7 +383,7 @@ func TestC03(t *testing.T) {
 	}
 
 	// ---- layer 3 ---------------------------------------------------------------------
-	c.rapidStage("layer3-decode", pick(30000, 1000000), func(rt *rapid.T) {
+	c.rapidStage("layer3-decode", pick(64000, 1000000), func(rt *rapid.T) {
 		var vec spec.Vec
 		if rapid.Bool().Draw(rt, "full") {
 			vec = gen.FullV3(spec.Environmental, 70).Draw(rt, "vector")
